@@ -7,11 +7,13 @@ package dvsim
 
 import (
 	"encoding/binary"
+	"errors"
 	"fmt"
 	"time"
 
 	enc "github.com/named-data/ndnd/std/encoding"
 	"github.com/named-data/ndnd/std/ndn"
+	mgmt "github.com/named-data/ndnd/std/ndn/mgmt_2022"
 	spec "github.com/named-data/ndnd/std/ndn/spec_2022"
 	"verif/shim/vtime"
 )
@@ -57,8 +59,22 @@ type Engine struct {
 	handlers []handlerEnt
 	outbox   []*Expressed
 	nonce    uint64
-	mgmt     int
+	// commands the real nfdc management loop handed to ExecMgmtCmd since the last barrier (written
+	// by the router's nfdc goroutine, read by the harness after the barrier signal)
+	execd   []ExecRec
+	barrier chan struct{}
 }
+
+// ExecRec is one management command as actually sent to the forwarder.
+type ExecRec struct {
+	Module, Cmd string
+	Args        *mgmt.ControlArgs
+}
+
+// barrierModule names the pseudo command the harness queues behind the real ones: the engine
+// answers it with an error (so the loop treats it as a failed command that was never executed) and
+// signals the harness that everything queued before it has been processed.
+const barrierModule = "verif-barrier"
 
 type simTimer struct{ e *Engine }
 
@@ -102,7 +118,12 @@ func (e *Engine) DetachHandler(prefix enc.Name) error {
 func (e *Engine) RegisterRoute(prefix enc.Name) error   { return nil }
 func (e *Engine) UnregisterRoute(prefix enc.Name) error { return nil }
 func (e *Engine) ExecMgmtCmd(module string, cmd string, args any) error {
-	e.mgmt++ // never reached: the nfdc goroutine is not started; commands are drained from its queue
+	if module == barrierModule {
+		e.barrier <- struct{}{}
+		return errors.New("barrier")
+	}
+	a, _ := args.(*mgmt.ControlArgs)
+	e.execd = append(e.execd, ExecRec{module, cmd, a})
 	return nil
 }
 
